@@ -10,9 +10,20 @@ PROP = dict(
     rule="(totality) malformed / mutated lines for both decoders (truncated, wrong separators, huge numbers, bytes >= 0x80, LF/CR "
          "inside, JSON-looking incl. [null], {, [1], misaligned SysStat scans) and messages for both encoders with any presence "
          "pattern and out-of-range enums/integers, incl. messages obtained from proto.Unmarshal of mutated wire bytes; "
-         "(re-entrancy) conc.run records: 4-32 goroutines x 2-4 passes over 26 shared inputs through the four converters and the "
-         "streaming reader (with the JSON state hop), every result compared with the sequential one; in the thorough tier the "
-         "same in a child process built with go build -race; every record counts as non-trivial; distinct = distinct record text. "
+         "(re-entrancy) conc.run records: 4-32 goroutines x 2-4 rounds through the four converters and the streaming reader (with "
+         "and without the JSON state hop), every result compared with the sequential one; inputs: 28 shared input sets (messages of "
+         "every kind, several states incl. two images of different formats in one message, multi-line texts / names / topology "
+         "JSON / SVG, JSON state and message-array lines spread over several text lines, chunk lines) converted by all goroutines in "
+         "different orders, and per goroutine its OWN inputs (PanelInfo.RawPanelSupport with a 13-flag capability set no other "
+         "goroutine has and its complement, the matching _support= lines, texts / event lists / two images of goroutine-specific "
+         "size and format), converted in bursts right after all goroutines met at a barrier; graphics phases: every goroutine "
+         "feeds its own transfer up to the last-but-one line, all meet, then the even ones feed the completing line and then chunk 0 "
+         "of a second transfer, the odd ones the other way round (a transfer completes while another goroutine starts one); every "
+         "returned slice / message is HELD and compared three times: when it comes back, at the end of the round (after the "
+         "goroutine's later calls, while others still convert) and after all goroutines finished; the sequential reference pass "
+         "holds its results the same way (a result changed by a later call is reported without any concurrency); one conc.run in a "
+         "child process built with go build -race in the quick tier, six in the thorough tier; a panic in the reference pass is "
+         "reported as panic; every record counts as non-trivial; distinct = distinct record text. "
          "DebugRWPhelpers stays false during conc.run; the conc.debug child is single-goroutine and switches it on once (under "
          "DebugRWPhelpersMU) between a sequential pass with the dump off and the passes with the dump on; no generator toggles the "
          "flag while converters run",
